@@ -30,10 +30,21 @@ ClampI(v, z) == Max2(0, Min2(v, MaxIdx(z)))
 \* floor(pos + guard) and floor(pos - guard) of the position h half-tiles@L0 seen at level z
 FloorUp(h, L0, z)   == (h * Pow2(z)) \div Pow2(L0 + 1)
 FloorDown(h, L0, z) == IF (h * Pow2(z)) % Pow2(L0 + 1) = 0 THEN FloorUp(h, L0, z) - 1 ELSE FloorUp(h, L0, z)
+\* An edge that lies EXACTLY on a tile boundary of level z touches two tiles; C15 admits either (the documented 1e-6 guard
+\* decides in the code).  A geo record may carry the choice ch = [w, n, e, s] with 1 = "take the outer, merely touched tile";
+\* without it the guard's choice (the inner tile) is taken.  Judging tries the guard's choice first and accepts an
+\* observation if ONE uniform choice explains it (ConvFails / PipeFails below).
+NoCh == [w |-> 0, n |-> 0, e |-> 0, s |-> 0]
+GeoChoices == { [w |-> a, n |-> b, e |-> c, s |-> d] : a \in {0, 1}, b \in {0, 1}, c \in {0, 1}, d \in {0, 1} }
+ChOf(g) == IF "ch" \in DOMAIN g THEN g.ch ELSE NoCh
+OnBoundary(h, L0, z) == (h * Pow2(z)) % Pow2(L0 + 1) = 0
 GeoBoxAt(g, z) ==
-    LET x0 == ClampI(FloorUp(g.w, g.L0, z), z)  y0 == ClampI(FloorUp(g.n, g.L0, z), z)
-        x1 == ClampI(FloorDown(g.e, g.L0, z), z)  y1 == ClampI(FloorDown(g.s, g.L0, z), z)
+    LET c == ChOf(g)
+        out(flag, h) == IF flag = 1 /\ OnBoundary(h, g.L0, z) THEN 1 ELSE 0
+        x0 == ClampI(FloorUp(g.w, g.L0, z) - out(c.w, g.w), z)  y0 == ClampI(FloorUp(g.n, g.L0, z) - out(c.n, g.n), z)
+        x1 == ClampI(FloorDown(g.e, g.L0, z) + out(c.e, g.e), z)  y1 == ClampI(FloorDown(g.s, g.L0, z) + out(c.s, g.s), z)
     IN << x0, y0, Max2(x0, x1), Max2(y0, y1) >>
+WithChoice(g, c) == [L0 |-> g.L0, w |-> g.w, n |-> g.n, e |-> g.e, s |-> g.s, ch |-> c]
 
 DBorder(d, b, z) == IF d = <<>> THEN <<>>
                     ELSE << Max2(0, d[1] - b), Max2(0, d[2] - b), Min2(MaxIdx(z), d[3] + b), Min2(MaxIdx(z), d[4] + b) >>
@@ -64,7 +75,7 @@ SrcAt(o, tiles, c) ==
     IN IF hit = {} THEN 0 ELSE tiles[CHOOSE i \in hit : TRUE][4]
 
 (* judging one observed converting reader *)
-ConvFails(r) ==
+ConvFails1(r) ==
     LET o == r.opts  tiles == r.tiles  exp == ExpectedOut(o, r.srccov, tiles) IN
     Fails("open", r.ok = 1) \cup
     (IF r.ok = 0 THEN {} ELSE
@@ -83,6 +94,12 @@ ConvFails(r) ==
      \* (an empty output has no decodable tile members in some formats: then "no tiles" is the right reading)
      Fails("file", r.file.skip = 1 \/ (SameBag(r.file.tiles, exp) /\ (r.file.ok = 1 \/ exp = {}))))
 
+\* judged with the guard's choice at exact tile boundaries; failing that, with any one uniform admissible choice
+ConvFails(r) ==
+    LET f0 == ConvFails1(r) IN
+    IF f0 = {} \/ r.opts.hasgeo = 0 THEN f0
+    ELSE IF \E c \in GeoChoices \ {NoCh} : ConvFails1([r EXCEPT !.opts.geo = WithChoice(r.opts.geo, c)]) = {} THEN {} ELSE f0
+
 (* the same through the real command line (`versatiles convert <options> in out`): the options as a user types them select
    and relocate exactly the tiles of the model.  Every source tile lies in the source coverage, so the expected output is the
    moved tiles that fall into the selection.  Named deviation: no writer stores an EMPTY tile set through the command line
@@ -93,11 +110,15 @@ CliExpected(o, tiles) ==
         i \in { j \in 1..Len(tiles) :
                   LET c == T(o.flip, o.swap, <<tiles[j][1], tiles[j][2], tiles[j][3]>>)
                   IN DContains(Sel(o, c[1]), c[2], c[3]) } }
-CliFails(r) ==
+CliFails1(r) ==
     LET exp == CliExpected(r.opts, r.tiles) IN
     Fails("cli_exit", r.exit = 0 \/ exp = {}) \cup
     (IF r.exit # 0 THEN {} ELSE
      Fails("cli_output", SameBag(r.file.tiles, exp) /\ (r.file.ok = 1 \/ exp = {})))
+CliFails(r) ==
+    LET f0 == CliFails1(r) IN
+    IF f0 = {} \/ r.opts.hasgeo = 0 THEN f0
+    ELSE IF \E c \in GeoChoices \ {NoCh} : CliFails1([r EXCEPT !.opts.geo = WithChoice(r.opts.geo, c)]) = {} THEN {} ELSE f0
 \* the model's output does not depend on the source coverage as long as it contains the tiles
 ThmCliExpected ==
     \A f \in {0, 1}, s \in {0, 1}, zmin \in {-1, 1}, b \in {0, 1} :
